@@ -61,6 +61,7 @@ class Unit:
         self.clauses = []     # contract clauses with labels
         self.count_only = None
         self.rlimit = 10      # Verus --rlimit for this unit (default 10)
+        self.extract_failed = {}  # fn -> message: body could not be extracted; emitted as assumed stub
         self.hints_lost = {}  # fn -> [messages]: proof scaffolding whose anchor no longer exists
         self.template = None
 
@@ -430,7 +431,21 @@ def expand(template_path, repo, vacuity=False):
             if i >= len(tlines):
                 raise GenError("%s: FN %s without END" % (template_path, name))
             i += 1  # skip END
-            _emit_fn(unit, repo, rel, scope, name, opts, flags, contract, directives, False, template_path)
+            mark = len(unit.segs)
+            nf, ne, nm, nc = len(unit.functions), len(unit.edits), len(unit.macro_rewrites), len(unit.clauses)
+            try:
+                _emit_fn(unit, repo, rel, scope, name, opts, flags, contract, directives, False, template_path)
+            except GenError as e:
+                if "anchor lost" not in str(e):
+                    raise
+                # a hard anchor of THIS function is gone: the function alone becomes an assumed stub (its own
+                # obligations undecided); the rest of the unit is still verified against its contract
+                del unit.segs[mark:]
+                del unit.functions[nf:], unit.edits[ne:], unit.macro_rewrites[nm:], unit.clauses[nc:]
+                _emit_fn(unit, repo, rel, scope, name, opts, flags + ["stub"], contract, [], False, template_path)
+                qual_ = (scope + "::" if scope != "free" else "") + name
+                unit.extract_failed[qual_] = str(e)
+                continue
             if vacuity and "kf" not in opts:
                 # vacuity probe: a copy of the function (calling the *real* callees) with `ensures false`
                 vopts = dict(opts)
@@ -573,6 +588,8 @@ def _emit_fn(unit, repo, rel, scope, name, opts, flags, contract, directives, va
             if vacuity:
                 sig = sig.replace(out_name.replace("__vac", ""), out_name, 1) if out_name.endswith("__vac") else sig
     directives = [d for d in directives if d[0] != "SIG"]
+    if "stub" in flags:
+        unit.segs.append(Seg("#[verifier::external_body]\n", "template", {"tline": 0}))
     unit.segs.append(Seg(sig + "\n", "sig", info))
 
     # ---- contract ------------------------------------------------------------------------
@@ -609,6 +626,15 @@ def _emit_fn(unit, repo, rel, scope, name, opts, flags, contract, directives, va
             unit.clauses.append({"fn": qual, "label": label, "props": props, "text": cl.split("//#")[0].strip()})
     if vacuity and not vac_done:
         unit.segs.append(Seg("    ensures false,\n", "contract", {"fn": qual, "tline": 0, "label": "VACUITY", "props": []}))
+
+    if "stub" in flags:
+        unit.segs.append(Seg("{ unimplemented!() }\n", "template", {"tline": 0}))
+        unit.functions.append({
+            "unit": unit.name, "fn": qual, "emitted_as": out_name, "file": rel,
+            "line": sf.text.count("\n", 0, toks[fn_i].start) + 1, "end_line": sf.text.count("\n", 0, toks[cb].end) + 1,
+            "body_sha256": "", "props": [p for p in opts.get("props", "").split(",") if p], "kf": opts.get("kf"),
+            "novac": True, "vac_copy": False, "calls": [], "stub": True})
+        return
 
     # ---- body edits ---------------------------------------------------------------------------
     replace, insert = {}, {}
